@@ -288,6 +288,7 @@ func init() {
 			s.Leaves += runs
 			s.Extra["linear_nodes"] = n
 			s.Extra["tick_misses"] = vtime.TickMisses()
+			s.Extra["quiesce_misses"] = vtime.QuiesceMisses()
 			return s, nil
 		},
 		newSys: func(variant string) (func() tt.Sys, any) {
